@@ -340,6 +340,48 @@ def _split_unpack_guard(assign: ast.Assign, call: ast.Call) -> bool:
 # ---------------------------------------------------------------------------
 
 
+def _str_or_none_typed(e: ast.expr, fi: FunctionInfo) -> bool:
+    """``e`` is a parameter annotated ``str`` / ``str | None`` whose only rebindings keep it a str
+    (``x = x or "lit"``, ``x = "lit"``)."""
+    if isinstance(e, ast.Constant):
+        return isinstance(e.value, str) or e.value is None
+    if not isinstance(e, ast.Name) or fi.is_lambda:
+        return False
+    a = fi.node.args
+    ann = None
+    for p in a.posonlyargs + a.args + a.kwonlyargs:
+        if p.arg == e.id:
+            ann = p.annotation
+    if ann is None or unparse(ann).replace(" ", "") not in ("str", "str|None", "None|str", "Optional[str]"):
+        return False
+    for st in walk_local(fi.node):
+        targets = []
+        if isinstance(st, ast.Assign):
+            targets = st.targets
+        elif isinstance(st, (ast.AugAssign, ast.AnnAssign)):
+            targets = [st.target]
+        elif isinstance(st, (ast.For, ast.comprehension)):
+            targets = [st.target]
+        elif isinstance(st, ast.NamedExpr):
+            targets = [st.target]
+        elif isinstance(st, ast.withitem) and st.optional_vars is not None:
+            targets = [st.optional_vars]
+        for t in targets:
+            if any(isinstance(x, ast.Name) and x.id == e.id for x in ast.walk(t)):
+                v = getattr(st, "value", None)
+                ok = isinstance(st, ast.Assign) and isinstance(t, ast.Name) and (
+                    (isinstance(v, ast.Constant) and isinstance(v.value, str))
+                    or (
+                        isinstance(v, ast.BoolOp)
+                        and isinstance(v.op, ast.Or)
+                        and all((isinstance(o, ast.Name) and o.id == e.id) or (isinstance(o, ast.Constant) and isinstance(o.value, str)) for o in v.values)
+                    )
+                )
+                if not ok:
+                    return False
+    return True
+
+
 class EscapeAnalysis:
     """ctx: 'docutils' | 'sphinx' | None (resolve renderer methods by all overrides)."""
 
@@ -448,7 +490,10 @@ class EscapeAnalysis:
             if n in ("yaml.safe_load", "yaml.load", "yaml.safe_load_all", "yaml.full_load", "yaml.unsafe_load"):
                 add(YAML_ERRORS, "yaml load")
             elif n == "json.dumps":
-                add([B + "TypeError", B + "ValueError"], "json.dumps of an arbitrary value")
+                if call.args and _str_or_none_typed(call.args[0], fi):
+                    self._discharge(fi, call, "json.dumps(): the argument is a parameter annotated str / str | None that is only rebound to itself-or-a-string-literal (json serialises every str and None)")
+                else:
+                    add([B + "TypeError", B + "ValueError"], "json.dumps of an arbitrary value")
             elif n == B + "chr":
                 if call.args and isinstance(call.args[0], ast.Constant):
                     pass
@@ -473,7 +518,10 @@ class EscapeAnalysis:
             elif n in (B + "open", "urllib.request.urlopen"):
                 add([B + "OSError", B + "ValueError"], "opening a file/URL")
             elif n == "html.parser.HTMLParser.feed":
-                add([B + "AssertionError"], "HTMLParser.feed (CPython raises AssertionError on unknown marked sections)")
+                if self._marked_section_guard(fi):
+                    self._discharge(fi, call, "HTMLParser.feed: the class overrides parse_marked_section and catches the AssertionError of the stdlib implementation (the only raise reachable from goahead() in CPython 3.12)")
+                else:
+                    add([B + "AssertionError"], "HTMLParser.feed (CPython raises AssertionError on unknown marked sections)")
             elif n == "docutils.utils.code_analyzer.Lexer":
                 a2 = call.args[2] if len(call.args) > 2 else None
                 if not (isinstance(a2, ast.Constant) and a2.value == "none"):
@@ -555,6 +603,41 @@ class EscapeAnalysis:
             return bad
 
         return self.c.cache("converter-tables", compute)
+
+    def _marked_section_guard(self, fi) -> bool:
+        """The class whose method calls ``HTMLParser.feed`` overrides ``parse_marked_section`` such that
+        every call of the inherited implementation sits in a ``try`` whose handler covers AssertionError."""
+        ci = fi.cls
+        if ci is None:
+            return False
+        m = None
+        for c in self.c.mro(ci):
+            if "parse_marked_section" in c.methods:
+                m = c.methods["parse_marked_section"]
+                break
+        if m is None:
+            return False
+        sup = [
+            c
+            for c in m.local_nodes()
+            if isinstance(c, ast.Call) and isinstance(c.func, ast.Attribute) and c.func.attr == "parse_marked_section"
+        ]
+        if not sup:
+            return False  # a re-implementation: not understood
+        for c in sup:
+            ok = False
+            for a in ancestors(c):
+                if a is m.node:
+                    break
+                if isinstance(a, ast.Try) and any(c is x or c in ast.walk(x) for st in a.body for x in [st]):
+                    for h in a.handlers:
+                        names = [h.type] if h.type is not None and not isinstance(h.type, ast.Tuple) else (list(h.type.elts) if h.type is not None else [None])
+                        for t in names:
+                            if t is None or dotted(t) in ("AssertionError", "Exception", "BaseException"):
+                                ok = True
+            if not ok:
+                return False
+        return True
 
     def _zlib_receiver(self, call: ast.Call, fi: FunctionInfo) -> bool:
         recv = call.func.value
